@@ -137,7 +137,7 @@ pub fn run(ctx: &Ctx) -> Report {
     let mut rep = Report::new("C03");
     rep.rule = "cases = generated zones (0..4097 transitions incl. lengths 2^k-1, 2^k, 2^k+1; strictly increasing times anywhere in i64 incl. i64::MIN/MAX; gaps from 1 s; repeated / no-op type indices; equal offsets; offsets up to +-i32; with/without leap table of both signs; no rule / fixed rule / DST rule consistent with the last transition); \
                 per zone the probes are every transition instant -2..+2 (capped at 48 transitions for long tables), the leap records -2..+2, rule instants +-1, i64::MIN/MAX, and random instants. Oracle: M-zone linear scan with M-leap, types carry unique designations so the returned reference identifies the table entry. \
-                distinct_nontrivial = distinct zones with at least one transition (hash of the table)."
+                plus the table-less shorthands TimeZone::utc() and TimeZone::fixed(offset) over the whole i32 offset range. distinct_nontrivial = distinct zones with at least one transition (hash of the table)."
         .into();
     rep.required_classes = vec![
         "empty_table",
@@ -151,6 +151,8 @@ pub fn run(ctx: &Ctx) -> Report {
         "after_last_with_rule",
         "after_last_without_rule",
         "exactly_on_last_transition",
+        "fixed_zone_constructor",
+        "fixed_zone_offset_i32_min_refused",
     ];
     if let Err(e) = self_tests() {
         rep.inconclusive.push(format!("model self-test failed: {}", e));
@@ -197,6 +199,54 @@ pub fn run(ctx: &Ctx) -> Report {
         let calls = check_zone(l, &z, rng, 5000, 50);
         l.op_n("find_local_time_type / from_timespec", calls);
         l.distinct_hash(zone_hash(&z));
+    });
+    // wl 4: the shorthand constructors of owned zones (no table at all): TimeZone::utc(), TimeZone::fixed(offset)
+    run_cases(ctx, &mut rep, 4, ctx.n(2000, 40_000), |l, rng, _| {
+        use tz::{LocalTimeType, TimeZone, TimeZoneRef};
+        let mut n = 0;
+        for _ in 0..ctx.inner(20) {
+            let off = match rng.below(4) {
+                0 => *rng.pick(&[0, 1, -1, i32::MAX, i32::MIN + 1, i32::MIN, 3600, -3600, 86400, -86400]),
+                1 => rng.next() as i32,
+                _ => rng.range(-100_000, 100_000) as i32,
+            };
+            let t = match rng.below(3) {
+                0 => rng.i64_any(),
+                1 => *rng.pick(&[i64::MIN, i64::MAX, 0, -1, 1]),
+                _ => rng.range(-4_000_000_000, 8_000_000_000),
+            };
+            n += 1;
+            match TimeZone::fixed(off) {
+                Ok(z) => {
+                    l.class("fixed_zone_constructor");
+                    if off == i32::MIN {
+                        l.violation("localtime(table): TimeZone::fixed accepts the offset i32::MIN", format!("TimeZone::fixed({})", off), "Err".into(), "Ok".into());
+                        continue;
+                    }
+                    let same_as_new = TimeZone::new(vec![], vec![LocalTimeType::with_ut_offset(off).unwrap()], vec![], None).map(|w| w == z).unwrap_or(false);
+                    let r = z.as_ref();
+                    let shape_ok = r.transitions().is_empty() && r.leap_seconds().is_empty() && r.extra_rule().is_none() && r.local_time_types().len() == 1;
+                    let lk = z.find_local_time_type(t).map(|x| (x.ut_offset(), x.is_dst(), x.time_zone_designation().to_string())).ok();
+                    if !same_as_new || !shape_ok || lk != Some((off, false, String::new())) {
+                        l.violation("localtime(table): TimeZone::fixed(offset) is not the zone with the single type (offset, standard, no designation)", format!("TimeZone::fixed({}) looked up at {}", off, t), format!("({}s,std,-) at every instant", off), format!("same_as_new={} shape_ok={} lookup={:?}", same_as_new, shape_ok, lk));
+                    }
+                }
+                Err(_) => {
+                    if off != i32::MIN {
+                        l.violation("localtime(table): TimeZone::fixed refuses a valid offset", format!("TimeZone::fixed({})", off), "Ok".into(), "Err".into());
+                    } else {
+                        l.class("fixed_zone_offset_i32_min_refused");
+                    }
+                }
+            }
+            let u = TimeZone::utc();
+            let lk = u.find_local_time_type(t).map(|x| (x.ut_offset(), x.is_dst(), x.time_zone_designation().to_string())).ok();
+            if u.as_ref() != TimeZoneRef::utc() || lk != Some((0, false, String::new())) || u.find_local_time_type(t).ok() != Some(&LocalTimeType::utc()) {
+                l.violation("localtime(table): TimeZone::utc() is not the UTC zone", format!("TimeZone::utc() looked up at {}", t), "LocalTimeType::utc() = (0s,std,-)".into(), format!("{:?}", lk));
+            }
+            l.distinct_hash(Fnv::new().i(off as i64).i(t).get());
+        }
+        l.op_n("TimeZone::fixed / TimeZone::utc", 2 * n);
     });
     if !ctx.quick() {
         // one table of 2^20 transitions
